@@ -166,7 +166,7 @@ Qed.
 
 (* ---- shapes: the label tensor written by a split ---- *)
 Lemma split_k1_label_shape sidx label k k' : split_k1 sidx label k = inr k' ->
-  ish k' label = (Z.of_nat (length sidx), n2 k, Z.of_nat (length (hd [] sidx))) /\ nO k' = nO k * Z.of_nat (length sidx).
+  ish k' label = (nO k * Z.of_nat (length sidx), n2 k, Z.of_nat (length (hd [] sidx))) /\ nO k' = nO k * Z.of_nat (length sidx).
 Proof.
   unfold split_k1. destruct (1 <? _); [discriminate|]. destruct (_ || _); [discriminate|]. destruct (t1 k <=? _); [discriminate|].
   intros E. injection E as <-. cbn. now rewrite Z.eqb_refl.
